@@ -689,6 +689,7 @@ func runC03(res *Result, rng *RNG, tier string, outDir string) {
 			}
 		}
 	}
+	c03SharedValueMatrix(res)
 	c02CaptureMatrix(res)
 	cs.write(res, outDir, "Cases_C03.v")
 }
@@ -1340,4 +1341,116 @@ func rulesOfScenario(sc azScenario) []SRule {
 		}
 	}
 	return append(rs, sc.Token[0].Rules...)
+}
+
+// c03SharedValueMatrix: evaluating an expression must not change the values it is given.  An
+// authority fact carries a set; a check-free block B applies an operation to that set, bound
+// through a variable (left or right operand); an observer (a check of another block, or a query
+// of the authorizer after Authorize) depends on the elements of the set.  T (without B) and T
+// with B inserted before / appended after the observer block must agree (B has no check), and the
+// authority facts read back after Authorize must be the ones the token carries.
+func c03SharedValueMatrix(res *Result) {
+	pub, priv := rootKeys()
+	type cse struct {
+		name, fact, brule, observer, query string
+	}
+	cases := []cse{
+		{"intersection-left", `tags([1, 2, 3])`, `kept(1) <- tags($s), $s.intersection([2, 3]).length() == 2`, `check if tags($s), $s.contains(1)`, `q($s) <- tags($s)`},
+		{"intersection-right", `tags([1, 2, 3])`, `kept(1) <- tags($s), [2, 3].intersection($s).length() == 2`, `check if tags($s), $s.contains(1)`, `q($s) <- tags($s)`},
+		{"intersection-left-last", `tags([1, 2, 3])`, `kept(1) <- tags($s), $s.intersection([3]).contains(3)`, `check if tags($s), $s.contains(1), $s.contains(2)`, `q($s) <- tags($s)`},
+		{"intersection-self", `tags([1, 2, 3])`, `kept(1) <- tags($s), $s.intersection($s).length() == 3`, `check if tags($s), $s.length() == 3`, `q($s) <- tags($s)`},
+		{"union-left", `tags([1, 2, 3])`, `kept(1) <- tags($s), $s.union([4, 1]).length() == 4`, `check if tags($s), $s.length() == 3, !$s.contains(4)`, `q($s) <- tags($s)`},
+		{"union-right", `tags([1, 2, 3])`, `kept(1) <- tags($s), [4, 1].union($s).length() == 4`, `check if tags($s), $s.length() == 3, !$s.contains(4)`, `q($s) <- tags($s)`},
+		{"strings-intersection-left", `labels(["read", "write", "admin"])`, `kept(1) <- labels($s), $s.intersection(["write", "admin"]).length() == 2`, `check if labels($s), $s.contains("read")`, `q($s) <- labels($s)`},
+		{"strings-union-left", `labels(["read", "write", "admin"])`, `kept(1) <- labels($s), $s.union(["other"]).length() == 4`, `check if labels($s), $s.length() == 3`, `q($s) <- labels($s)`},
+		{"two-sets", `pair([1, 2, 3], [2, 3])`, `kept(1) <- pair($s, $t), $s.intersection($t) == $t`, `check if pair($s, $t), $s.contains(1), $t.length() == 2`, `q($s, $t) <- pair($s, $t)`},
+		{"in-check-of-same-block", `tags([1, 2, 3])`, ``, `check if tags($s), $s.intersection([2, 3]).length() == 2, $s.contains(1)`, `q($s) <- tags($s)`},
+	}
+	for _, c := range cases {
+		build := func(order string) (*biscuit.Biscuit, error) { // order: letters B (check-free block) and O (observer block)
+			b := biscuit.NewBuilder(priv, biscuit.WithRNG(detReader{NewRNG(21)}))
+			f, err := parser.FromStringFact(c.fact)
+			if err != nil {
+				return nil, err
+			}
+			b.AddAuthorityFact(f)
+			t, err := b.Build()
+			if err != nil {
+				return nil, err
+			}
+			for i, o := range order {
+				bb := t.CreateBlock()
+				if o == 'B' {
+					if c.brule == "" {
+						continue
+					}
+					r, err := parser.FromStringRule(c.brule)
+					if err != nil {
+						return nil, err
+					}
+					bb.AddRule(r)
+				} else {
+					ch, err := parser.FromStringCheck(c.observer)
+					if err != nil {
+						return nil, err
+					}
+					bb.AddCheck(ch)
+				}
+				if t, err = t.Append(detReader{NewRNG(uint64(30 + i))}, bb.Build()); err != nil {
+					return nil, err
+				}
+			}
+			bs, err := t.Serialize()
+			if err != nil {
+				return nil, err
+			}
+			return biscuit.Unmarshal(bs)
+		}
+		type outcome struct{ verdict, first, second, query string }
+		run := func(order string) (o outcome, panicked string) {
+			panicked = usable(func() {
+				t, err := build(order)
+				if err != nil {
+					fatal("shared-value matrix %s/%s: cannot build: %v", c.name, order, err)
+				}
+				a, err := t.AuthorizerFor(biscuit.WithSingularRootPublicKey(pub), biscuit.WithWorldOptions(longDuration()))
+				if err != nil {
+					fatal("shared-value matrix %s/%s: %v", c.name, order, err)
+				}
+				a.AddPolicy(biscuit.DefaultAllowPolicy)
+				o.first = fmt.Sprint(a.Authorize())
+				o.second = fmt.Sprint(a.Authorize())
+				q, err := parser.FromStringRule(c.query)
+				if err != nil {
+					fatal("shared-value matrix %s: %v", c.name, err)
+				}
+				fs, err := a.Query(q)
+				o.query = fmt.Sprint(fs, err)
+			})
+			return
+		}
+		ref, pan := run("O")
+		res.Count("shared-value:"+c.name, true)
+		rep := map[string]interface{}{"case": c.name, "authority_fact": c.fact, "check_free_block_rule": c.brule, "observer_check": c.observer, "query": c.query, "alone": ref}
+		if pan != "" {
+			res.Violate("panic:shared-value:"+c.name, "panic: "+pan, rep)
+			continue
+		}
+		if ref.first != "<nil>" || ref.second != "<nil>" {
+			res.Violate("shared-value:"+c.name+":observer-alone", "the observer block alone is refused ("+ref.first+" / second Authorize "+ref.second+"): evaluating an expression changed the authority fact's set", rep)
+			continue
+		}
+		for _, order := range []string{"BO", "OB", "BOB"} {
+			got, pan := run(order)
+			rep2 := map[string]interface{}{"case": c.name, "authority_fact": c.fact, "check_free_block_rule": c.brule, "observer_check": c.observer, "query": c.query, "blocks": order, "alone": ref, "with_check_free_block": got}
+			res.Dist("shared-value:" + order)
+			if pan != "" {
+				res.Violate("panic:shared-value:"+c.name, "panic: "+pan, rep2)
+			} else if got.first != ref.first || got.second != ref.second {
+				res.Violate("check-free-block-changes-verdict:shared-value:"+c.name, "a check-free block whose rule applies an operation to an authority fact's set changes the verdict (blocks "+order+"): alone "+ref.first+", with it "+got.first+" / "+got.second, rep2)
+			} else if got.query != ref.query {
+				res.Violate("check-free-block-changes-facts:shared-value:"+c.name, "a check-free block whose rule applies an operation to an authority fact's set changes that fact as read back by Query: alone "+ref.query+", with it "+got.query, rep2)
+			}
+		}
+	}
 }
